@@ -363,6 +363,49 @@ def run(args):
     w.insert(HH()); w.record("HH_n", verbose=False); w.clamp("HH_m", jnp.ones(3) * 0.3, verbose=False); w.delete_channel(HH())
     R.evaluations += 1
     invariant(R, w, dict(witness="insert(HH); record('HH_n'); clamp('HH_m'); delete_channel(HH)"))
+    # -------- a state of the deleted channel whose NAME is also a parameter of another channel (user-defined mechanisms): the column
+    #          stays (it is the other channel's parameter), the recording of the state must go (counterexample found by the proof of
+    #          `noDangling_step`, reproduced on the real code, fixed together with N13)
+    from jaxley.channels import Channel as _Channel
+
+    class _A(_Channel):
+        def __init__(self, name=None):
+            self.current_is_in_mA_per_cm2 = True
+            super().__init__(name)
+            self.channel_params = {"A_g": 1e-4}; self.channel_states = {"x": 0.2}; self.current_name = "i_A"
+
+        def update_states(self, states, dt, v, params):
+            return {"x": states["x"] * 0.9}
+
+        def compute_current(self, states, v, params):
+            return params["A_g"] * states["x"] * (v + 70.0)
+
+        def init_state(self, states, v, params, delta_t):
+            return {}
+
+    class _B(_Channel):
+        def __init__(self, name=None):
+            self.current_is_in_mA_per_cm2 = True
+            super().__init__(name)
+            self.channel_params = {"x": 0.5, "B_g": 1e-4}; self.channel_states = {}; self.current_name = "i_B"
+
+        def update_states(self, states, dt, v, params):
+            return {}
+
+        def compute_current(self, states, v, params):
+            return params["B_g"] * params["x"] * (v + 60.0)
+
+        def init_state(self, states, v, params, delta_t):
+            return {}
+    w2 = jx.Cell([jx.Branch([comp] * 2)], parents=[-1])
+    w2.insert(_A()); w2.insert(_B()); w2.record("v", verbose=False); w2.record("x", verbose=False); w2.delete_channel(_A())
+    R.evaluations += 1
+    wdesc = dict(witness="insert(A with state x); insert(B with parameter x); record('x'); delete_channel(A)")
+    invariant(R, w2, wdesc)
+    try:
+        jx.integrate(w2, t_max=0.05)
+    except Exception as ex:
+        R.spec_fail(dict(kind="integrate-fails-after-history", err=type(ex).__name__), f"integrate fails after {wdesc['witness']}: {type(ex).__name__}: {str(ex)[:100]}", wdesc, repr(ex)[:200])
     R.explanation = "pure state machine with invariant theorems (Props/C19.lean); α(module) compared with the model after every operation"
     R.assumptions = ["views are given as explicit row/edge selections (view resolution is property C11)", "make_trainable index groups are taken from the implementation (their construction is property C10)"]
     R.extra["driver_lines"] = drv.lines
